@@ -124,12 +124,14 @@ def run(prop, tier, seed):
             v.cov["samples"].append([desc(e) for e in traces[0]["ev"]])
     chia(v, prop, d, seed, tier)
     api_stage(v, prop, d, drv, seed, tier)
+    real_engine(v, prop, d, drv, seed, tier)
     if prop == "C13":
+        stop_stop(v, d, drv, seed)
         burst(v, d, drv, seed, tier)
         start_stop_start(v, d, drv, seed)
         concurrent(v, d, drv, seed, tier)
         concurrent(v, d, vlib.build("keeper2drv"), seed, tier, drvname="keeper2drv")
-    v.cov["evaluations"] = len(scen) + v.cov.get("evaluations_api", 0)
+    v.cov["evaluations"] = len(scen) + v.cov.get("evaluations_api", 0) + v.cov.get("evaluations_real_engine", 0)
     v.cov["distinct_nontrivial"] = sum(1 for s in scen if nontrivial(s["steps"]))
     v.cov["traces_accepted"] = total
     v.cov["rule"] = ("behaviours of 30 actions generated by TLC (-simulate, seeded) from KeeperGen.tla over 3 spaces: single and bulk "
@@ -231,6 +233,59 @@ def start_stop_start(v, d, drv, seed):
                    dict(scenario=sc[0], event=e))
 
 
+def real_engine(v, prop, d, drv, seed, tier):
+    """the same behaviours with the real plot engine behind the keeper (massdb.v1, a 10-bit table behind the configured
+    name; its first window is held by the memory hook until the behaviour lets the plot go on): real Plot / StopPlot /
+    Progress / Delete under the keeper's locks, files on disk as the files projection"""
+    n = 200 if tier == "quick" else 3000
+    behs, w = vlib.tlc_generate(d, "KeeperGen.tla", "KeeperGen.cfg", n, 31, seed + 5151)
+    scen = mk_scen(vlib.dedup(behs), seed)
+    for i, s_ in enumerate(scen):
+        s_["sc"] = 70000 + i
+        s_["opt"]["realdb"] = True
+    sf, tf = os.path.join(d, "real.json"), os.path.join(d, "real.ndjson")
+    json.dump(scen, open(sf, "w"))
+    out, w = vlib.run_driver(drv, sf, tf, ["-workers", str(min(vlib.NCPU, 12)), "-stall", "30"], timeout=1500)
+    traces = vlib.read_traces(tf)
+    acc = validate(v, prop, d, scen, traces)
+    plots = sum(1 for t in traces for e in t["ev"] if e.get("gate") == "inplot")
+    v.cov["real_engine_scenarios"], v.cov["real_engine_accepted"], v.cov["real_engine_plots_started"] = len(scen), len(acc), plots
+    v.cov["evaluations_real_engine"] = len(scen)
+    log("real plot engine behind the keeper: %d scenarios in %.1fs, %d accepted, %d real plots started" % (len(scen), w, len(acc), plots))
+
+
+def stop_stop(v, d, drv, seed):
+    """C13: StopWS of the space being plotted (real engine) and a stop of the keeper arrive together: the keeper asks
+    the engine to stop the plot on both paths.  PlotStop.tla: with the repaired close rule nothing panics and every
+    StopPlot returns; with the pinned rule TLC finds the double close, which is this schedule."""
+    mf = vlib.tlc_mc(d, "PlotStop.tla", "PlotStop_first.cfg", timeout=300)
+    vlib.require_mc_ok(mf, "PlotStop (CloseRule = first)")
+    ma = vlib.tlc_mc(d, "PlotStop.tla", "PlotStop_always.cfg", timeout=300)
+    v.cov["plotstop_pinned_close_rule_refuted"] = bool(ma["violated"])
+    if not ma["violated"]:
+        raise vlib.Machinery("PlotStop.tla with CloseRule=always no longer shows the double close")
+    sc = [dict(sc=9200 + i, seed=seed * 31 + i, steps=[], opt=dict(mode="stopstop", realdb=True, spaces=3, init={})) for i in range(3)]
+    sf, tf = os.path.join(d, "ss.json"), os.path.join(d, "ss.ndjson")
+    json.dump(sc, open(sf, "w"))
+    vlib.run_driver(drv, sf, tf, ["-workers", "3", "-stall", "60"], timeout=300)
+    res = []
+    for s_, t in zip(sc, vlib.read_traces(tf)):
+        ev = [e for e in t["ev"] if e.get("a") in ("StopStop", "?")]
+        if t.get("dead") or not ev:
+            raise vlib.Machinery("StopStop schedule did not run: %s" % t.get("note"))
+        e = ev[-1]
+        res.append({k: e.get(k) for k in ("res", "stop_space", "stop_keeper", "stops_at_engine")})
+        if e.get("res") in ("no-plot",) or str(e.get("res", "")).startswith("plot-"):
+            raise vlib.Machinery("StopStop schedule could not bring a plot under way: %s" % e.get("res"))
+        if e.get("res") != "ok" or e.get("stop_space") != "ok" or e.get("stop_keeper") != "ok":
+            note = str(t.get("note") or "")
+            what = "panic: close of closed channel in MassDBV1.StopPlot" if "close of closed channel" in note else "res=%s" % e.get("res")
+            v.classify(dict(cause="stop_stop", tag="C13-concurrent-stops-of-a-running-plot"),
+                       "StopWS of the plotting space together with a keeper stop (real plot engine): %s; workspace stop=%s, keeper stop=%s" % (
+                           what, e.get("stop_space"), e.get("stop_keeper")), dict(scenario=s_, event=e, output=note[-1500:]))
+    v.cov["stop_stop"] = res
+
+
 def concurrent(v, d, drv, seed, tier, only=None, drvname="keeperdrv"):
     """C13: concurrent callers on the real keeper while the plotter runs freely; also on a race-detector build."""
     if only is None:
@@ -278,6 +333,10 @@ def replay(prop, path, seed):
     r = json.load(open(path))["replay"]
     if r["scenario"].get("opt", {}).get("mode") == "startstopstart":
         start_stop_start(v, d, drv, seed)
+        v.cov.update(states=1, transitions=1, evaluations=1, distinct_nontrivial=1)
+        return v.finish()
+    if r["scenario"].get("opt", {}).get("mode") == "stopstop":
+        stop_stop(v, d, drv, seed)
         v.cov.update(states=1, transitions=1, evaluations=1, distinct_nontrivial=1)
         return v.finish()
     if r["scenario"].get("opt", {}).get("mode") == "conc":
